@@ -275,6 +275,8 @@ func Layouts(quick bool) []Layout {
 	ls = append(ls,
 		// a video boundary (180481 = 1920*94+1 ticks) whose conversion to 48 kHz is inexact with an integer part on the AAC frame grid
 		Layout{Name: "g_inexact_audio_boundary", VideoTS: 90000, FrameDur: 3000, SegFrames: []int{60, 60, 60, 60}, AudioSegs: []int{94, 94, 94, 93}, Shift: []int{481}},
+		// 1.92 s segments (48 frames at 25 fps): off-second starts whose segments intersect three UTC seconds
+		Layout{Name: "g_1920ms", VideoTS: 12800, FrameDur: 512, SegFrames: []int{48, 48, 48, 48}, AudioSegs: []int{90, 90, 90, 90}, Text: true},
 		// audio VoD grid coarser than the video grid: one 8 s audio segment for 4 x 2 s video segments
 		Layout{Name: "g_audio_one_seg", VideoTS: 90000, FrameDur: 3000, SegFrames: []int{60, 60, 60, 60}, AudioSegs: []int{375}},
 	)
